@@ -1652,3 +1652,130 @@ fn ss22k__password_to_keys<const N: usize>(password: &str) -> Result<([u8; N], V
         let enc_key = identity_keys.remove(identity_keys.len() - 1);
         Ok((enc_key, identity_keys))
     }
+
+//@@ octo-squirrel/src/protocol.rs:14-20  enum Protocol  sha=f4fd8332bf4085d1
+#[derive(Clone, Copy)]
+pub enum Protocol {
+    Shadowsocks,
+    VMess,
+    Trojan,
+}
+
+//@@ octo-squirrel/src/config.rs:18-30  enum Mode  sha=957f62c1c01193ba
+#[derive(Clone, Copy)]
+pub enum cfg__Mode {
+    Tcp,
+    Udp,
+    TcpAndUdp,
+    Quic,
+    TcpAndQuic,
+}
+
+//@@ octo-squirrel/src/config.rs:64-84  struct ServerConfig  sha=4a1981ff06f0d60b
+pub struct ServerConfig<S: Clone + Default> {
+    pub host: String,
+    pub port: u16,
+    pub mode: cfg__Mode,
+    pub password: String,
+    pub protocol: Protocol,
+    pub cipher: CipherKind,
+    pub ssl: Option<S>,
+    pub ws: Option<WebSocketConfig>,
+    pub quic: Option<S>,
+    pub user: Vec<User>,
+    marker: PhantomData<S>,
+}
+
+//@@ octo-squirrel/src/config.rs:92-98  struct WebSocketConfig  sha=f6c7c5e2c14b9f62
+pub struct WebSocketConfig {
+    pub header: HashMap<String, String>,
+    pub path: String,
+}
+
+//@@ octo-squirrel/src/config.rs:100-104  struct User  sha=bb2d5e07d1c8ea18
+pub struct User {
+    pub name: String,
+    pub password: String,
+}
+
+//@@ octo-squirrel/src/manager/shadowsocks.rs:70-81  impl TryFrom for ServerUser  sha=147844897c3f48a7
+impl<const N: usize> ServerUser<N> {
+
+    fn try_from(value: &User) -> Result<Self, base64ct::Error> {
+        let mut key = [0; N];
+        let mut identity_hash = [0; 16];
+        Base64::decode(&value.password, &mut key)?;
+        let hash = blake3::hash(&key);
+        identity_hash.copy_from_slice(&hash.as_bytes()[..16]);
+        Ok(Self { name: value.name.clone(), key, identity_hash })
+    }
+}
+
+//@@ octo-squirrel-client/src/client/config.rs:30-38  struct SslConfig  sha=335b473079324dbf
+#[derive(Default, Clone)]
+pub struct SslConfig {
+    pub certificate_file: Option<String>,
+    pub key_file: Option<String>,
+    pub server_name: Option<String>,
+}
+
+//@@ octo-squirrel-client/src/client/shadowsocks.rs:21-22  mod tcp / struct ClientContext  sha=2382d56aa048fd90
+#[derive(Clone)]
+    pub struct ClientContext<const N: usize>(Arc<Context<N>>);
+
+//@@ octo-squirrel-client/src/client/shadowsocks.rs:24-38  mod tcp / impl TryFrom for ClientContext  sha=39de7352398736c5
+impl<const N: usize> ClientContext<N> {
+
+        fn try_from(value: &ServerConfig<SslConfig>) -> Result<Self, anyhow::Error> {
+            let kind = value.cipher;
+            let (key, identity_keys) = if kind.is_aead_2022() {
+                ss22k__password_to_keys(&value.password).map_err(|e| verif_err())?
+            } else {
+                let key = ssaeadk__openssl_bytes_to_key(value.password.as_bytes());
+                (key, Vec::with_capacity(0))
+            };
+            let context = Arc::new(Context::new(key, identity_keys, value.cipher, None));
+            Ok(Self(context))
+        }
+    }
+
+//@@ octo-squirrel-client/src/client/shadowsocks.rs:103-108  mod udp / struct Client  sha=d93cebf4aeaa000b
+#[derive(Clone, Copy)]
+    pub struct Client<'a, const N: usize> {
+        kind: CipherKind,
+        key: &'a [u8],
+        identity_keys: &'a [[u8; N]],
+    }
+
+//@@ octo-squirrel-client/src/client/shadowsocks.rs:110-121  mod udp / impl Client  sha=8c422fdb4dd96303
+impl<const N: usize> Client<'_, N> {
+        fn new_static(config: ServerConfig<SslConfig>) -> anyhow::Result<Client<'static, N>> {
+            let (key, identity_keys) = if config.cipher.is_aead_2022() {
+                ss22k__password_to_keys(&config.password).map_err(|e| verif_err())?
+            } else {
+                (ssaeadk__openssl_bytes_to_key(config.password.as_bytes()), Vec::with_capacity(0))
+            };
+            let key: &'static [u8; N] = verif_leak(key);
+            let identity_keys: &'static Vec<[u8; N]> = verif_leak(identity_keys);
+            Ok(Client::<'static> { kind: config.cipher, key, identity_keys })
+        }
+    }
+
+//@@ octo-squirrel-server/src/server/shadowsocks.rs:300-301  mod tcp / struct ServerContext  sha=e2f8b9f4fe8a2fbd
+#[derive(Clone)]
+    pub struct ServerContext<const N: usize>(Arc<Context<N>>);
+
+//@@ octo-squirrel-server/src/server/shadowsocks.rs:303-315  mod tcp / impl ServerContext  sha=8a129de5264a3aff
+impl<const N: usize> ServerContext<N> {
+        fn init(config: &ServerConfig<SslConfig>, user_manager: Arc<ServerUserManager<N>>) -> Result<Self> {
+            let kind = config.cipher;
+            let (key, identity_keys) = if kind.is_aead_2022() {
+                ss22k__password_to_keys(&config.password).map_err(|e| verif_err())?
+            } else {
+                let key = ssaeadk__openssl_bytes_to_key(config.password.as_bytes());
+                (key, Vec::with_capacity(0))
+            };
+            let context = Arc::new(Context::new(key, identity_keys, config.cipher, Some(user_manager)));
+            Ok(Self(context))
+        }
+    }
